@@ -437,6 +437,34 @@ class SymArray(rnp.ndarray):
             return
         _sym_setitem(self, idx, value)
 
+    # -- in-place operators (NumPy refuses ufunc calls with symbolic scalar operands, so route them explicitly)
+    def _inplace(self, name, other):
+        if not self.flags.writeable:
+            raise ValueError("output array is read-only")
+        res = elementwise(SCALAR_OPS[name], self, other)
+        if _obj(res).shape != self.shape:
+            raise ValueError("non-broadcastable output operand")
+        self.view(rnp.ndarray)[...] = _obj(res)
+        return self
+
+    def __iadd__(self, o):
+        return self._inplace("add", o)
+
+    def __isub__(self, o):
+        return self._inplace("subtract", o)
+
+    def __imul__(self, o):
+        return self._inplace("multiply", o)
+
+    def __itruediv__(self, o):
+        return self._inplace("true_divide", o)
+
+    def __ior__(self, o):
+        return self._inplace("logical_or" if self.sdtype in (rnp.bool_, bool) or all(isinstance(e, (SBool, bool, rnp.bool_)) for e in self.flat) else "bitwise_or", o)
+
+    def __iand__(self, o):
+        return self._inplace("logical_and" if self.sdtype in (rnp.bool_, bool) or all(isinstance(e, (SBool, bool, rnp.bool_)) for e in self.flat) else "bitwise_and", o)
+
     # -- methods with value semantics
     def sum(self, axis=None, dtype=None, out=None, keepdims=False, initial=None):
         return sum_(self, axis=axis, keepdims=keepdims)
@@ -1081,3 +1109,23 @@ _TABLE = {
 }
 for _cls in (XR, SInt, SBool):
     _install_lift(_cls, _TABLE)
+
+
+# NumPy scalars are subscriptable and carry a few array attributes; so do the symbolic scalars
+def _scalar_as_array(x):
+    out = rnp.empty((), dtype=object)
+    out[()] = x
+    return out.view(SymArray)
+
+
+for _cls in (XR, SInt, SBool):
+    _cls.__getitem__ = lambda self, idx: _scalar_as_array(self)[idx]
+    _cls.shape = ()
+    _cls.ndim = 0
+    _cls.size = 1
+    _cls.copy = lambda self: self
+    _cls.item = lambda self: self
+    _cls.flatten = lambda self: _scalar_as_array(self).reshape(1)
+    _cls.reshape = lambda self, *shape: _scalar_as_array(self).reshape(*shape)
+    _cls.sum = lambda self, *a, **k: self
+    _cls.T = property(lambda self: self)
